@@ -5,7 +5,7 @@ from tools.cxx2c import Lower, Unsupported, kids, qt, qt_sugar, strip, strip_par
 
 NAME = 'UPD'
 SRC = '/repo/src/bloch/update/update_manager.cpp'
-FUNCS = ['parseSemVer', 'compareSemVer', 'changeLabel', 'hasLatest', 'hasExpired', 'shouldSkipChecks', 'maybePrintNotice', 'checkForUpdatesIfDue']
+FUNCS = ['parseSemVer', 'compareSemVer', 'changeLabel', 'hasLatest', 'hasExpired', 'shouldSkipChecks', 'maybePrintNotice', 'checkForUpdatesIfDue', 'parseChecksum']
 REGIONS = ['performSelfUpdate']
 AST_FILTER = FUNCS + REGIONS + ['SemVer', 'UpdateCache', 'kUpdateWindow']
 SHIM = 'upd.h'
@@ -35,6 +35,9 @@ class Profile(Lower):
         (r'^(Clock|std::chrono::system_clock)::time_point$', 'bl_time'),
         (r'^std::optional<(bloch::update::\(anonymous namespace\)::)?UpdateCache>$', 'opt_UpdateCache'),
         (r'^std::optional<std::(basic_string<char>|string)>$', 'opt_sv'),
+        (r'^std::(basic_)?istringstream(<char.*>)?$', 'bl_iss'),
+        (r'^std::basic_istream<char.*>$', 'bl_iss'),
+        (r'^std::basic_ios<char.*>$', 'bl_iss'),
         (r'^std::chrono::time_point<std::chrono::(_V2::)?system_clock, std::chrono::duration<long, std::ratio<1, 1000000000>>>$', 'bl_time'),
     ]
 
@@ -109,6 +112,10 @@ class Profile(Lower):
     def declref(self, n):
         rd = n['referencedDecl']
         name = rd['name']
+        if name == 'npos':
+            return 'BL_NPOS'
+        if name == 'nullopt':
+            return '(opt_sv){ 0, { "", 0 } }'
         if name in self.consts:
             return self.consts[name]
         if rd.get('kind') == 'ParmVarDecl' and name in self.refparams:
@@ -144,6 +151,14 @@ class Profile(Lower):
             if len(args) == 1:
                 return self.expr(args[0])
         if ct == 'bl_time' and len(args) == 1 and self.ct(args[0]) == 'bl_time':
+            return self.expr(args[0])
+        if ct == 'bl_iss' and len([a for a in args]) >= 1 and self.ct(args[0]) == 'bl_sv':
+            return 'bl_iss_make(%s)' % self.expr(args[0])
+        if ct == 'opt_sv' and len(args) == 1 and self.ct(args[0]) == 'bl_sv':
+            return '(opt_sv){ 1, %s }' % self.expr(args[0])
+        if ct == 'opt_sv' and (not args or 'nullopt' in qt(args[0])):
+            return '(opt_sv){ 0, { "", 0 } }'
+        if ct == 'opt_sv' and len(args) == 1 and self.ct(args[0]) == 'opt_sv':
             return self.expr(args[0])
         raise Unsupported('ctor %s/%d' % (ct, len(args)))
 
@@ -200,6 +215,20 @@ class Profile(Lower):
         st = self.is_ostream_chain(n)
         if st:
             return 'bl_out(%d)' % st
+        if op == 'operator>>' and t0 == 'bl_iss' and len(args) == 2 and self.ct(args[1]) == 'bl_sv':
+            a0 = strip_parens(args[0])
+            if a0.get('kind') == 'CXXOperatorCallExpr' and callee_name(kids(a0)[0]) == 'operator>>':
+                # in >> a >> b : the second extraction happens on the same stream, only if the first succeeded
+                first = self.expr(a0)
+                m = re.search(r'bl_iss_read_word\(&(\w+), ', first)
+                if not m:
+                    raise Unsupported('extraction chain shape')
+                return '(%s && bl_iss_read_word(&%s, &%s))' % (first, m.group(1), self.expr(args[1]))
+            return 'bl_iss_read_word(&%s, &%s)' % (self.expr(args[0]), self.expr(args[1]))
+        if op == 'operator!' and len(args) == 1 and ('basic_ios' in qt(args[0]) or t0 == 'bl_iss'):
+            return '(!%s)' % self.expr(args[0])
+        if op in ('operator==', 'operator!=') and t0 == 'bl_sv' and self.ct(args[1]) == 'bl_sv' and self.fn == 'parseChecksum':
+            return '(%sbl_sv_eq(%s, %s))' % ('' if op == 'operator==' else '!', self.expr(args[0]), self.expr(args[1]))
         if op == 'operator[]' and t0 == 'bl_sv':
             return 'SV_AT(%s, %s)' % (self.expr(args[0]), self.expr(args[1]))
         if op == 'operator*' and len(args) == 1 and t0 in ('opt_sv', 'opt_UpdateCache'):
@@ -231,6 +260,12 @@ class Profile(Lower):
                 return '(%s).has' % o
             if name == 'value_or' and len(args) == 1:
                 return '((%s).has ? (%s).v : %s)' % (o, o, self.expr(args[0]))
+        if name in ('operator bool', 'operator!') and (o.startswith('bl_getline(') or 'bl_iss_read_word(' in o):
+            return o if name == 'operator bool' else '(!%s)' % o
+        if False:
+            return o
+        if t == 'bl_sv' and name == 'find' and len([a for a in args if a.get('kind') != 'CXXDefaultArgExpr']) == 1 and self.ct(args[0]) == 'bl_sv':
+            return 'bl_sv_find_sv(%s, %s)' % (o, self.expr(args[0]))
         if t == 'bl_sv':
             if name in ('size', 'length'):
                 return 'SV_SIZE(%s)' % o
@@ -260,6 +295,8 @@ class Profile(Lower):
             return '%s(%s)' % (STUBS[name], ', '.join(('&' + self.expr(a)) if self.is_out_string(a) else self.expr(a) for a in args))
         if name == 'getline' and len(args) == 2 and strip_parens(args[0]).get('kind') == 'DeclRefExpr' and strip_parens(args[0])['referencedDecl']['name'] == 'cin':
             return 'upd_stub_read_line(&%s)' % self.expr(args[1])
+        if name == 'getline' and len(args) == 2 and self.ct(args[0]) == 'bl_iss':
+            return 'bl_getline(&%s, &%s)' % (self.expr(args[0]), self.expr(args[1]))
         if name == 'isdigit':
             return 'bl_isdigit(%s)' % self.expr(args[0])
         if name == 'stoi' and self.ct(args[0]) == 'bl_sv':
@@ -324,7 +361,7 @@ _Bool g_env_set[8]; int bl_out_count[3];
 size_t gb;            /* ghost byte index */
 size_t g_o, g_e0, g_e1, g_e2;   /* ghost: offset of the first component and the ends of the three digit runs */
 SemVer g_cur, g_lat;  /* ghost: what parseSemVer returned for the two version strings */
-int g_reached_download, g_saves, g_fetches, g_loads, g_prompts;
+int g_reached_download, g_saves, g_fetches, g_loads, g_prompts; bl_time g_now, g_saved_lastNotified;
 /* ---- contract-only stubs for the I/O this unit does not look into (assumed, not verified) */
 #ifdef NATIVE
 /* the I/O stubs are never called by the natively co-executed functions */
@@ -332,8 +369,8 @@ bl_time upd_stub_now(void) { abort(); } opt_UpdateCache upd_stub_loadCache(void)
 void upd_stub_saveCache(UpdateCache c) { abort(); } bl_sv upd_stub_userAgent(bl_sv v) { abort(); } opt_sv upd_stub_fetchLatestReleaseTag(bl_sv a, bl_sv *e) { abort(); } void upd_stub_read_line(bl_sv *l) { abort(); }
 #else
 bl_time upd_stub_now(void)
-__CPROVER_assigns()
-__CPROVER_ensures(__CPROVER_return_value >= -TBOUND / 2 && __CPROVER_return_value <= TBOUND / 2)
+__CPROVER_assigns(g_now)
+__CPROVER_ensures(__CPROVER_return_value >= -TBOUND / 2 && __CPROVER_return_value <= TBOUND / 2 && g_now == __CPROVER_return_value)
 ;
 opt_UpdateCache upd_stub_loadCache(void)
 __CPROVER_assigns(g_loads)
@@ -347,8 +384,8 @@ __CPROVER_ensures(__CPROVER_return_value.latestVersion.n == 0 && __CPROVER_retur
 __CPROVER_ensures(__CPROVER_is_fresh(__CPROVER_return_value.latestVersion.p, VMAX + 1))
 ;
 void upd_stub_saveCache(UpdateCache c)
-__CPROVER_assigns(g_saves)
-__CPROVER_ensures(g_saves == __CPROVER_old(g_saves) + 1)
+__CPROVER_assigns(g_saves, g_saved_lastNotified)
+__CPROVER_ensures(g_saves == __CPROVER_old(g_saves) + 1 && g_saved_lastNotified == c.lastNotified)
 ;
 bl_sv upd_stub_userAgent(bl_sv v)
 __CPROVER_assigns()
@@ -391,6 +428,27 @@ V = 'version'
 # semver_spec (C20): optional 'v', then up to three '.'-separated maximal decimal runs; valid iff
 # the first run is non-empty.  O = offset of the first run.
 O = '((%s.n > 0 && %s.p[0] == 118) ? (size_t)1 : (size_t)0)' % (V, V)
+GHOSTS += r'''
+/* ---- specification of the checksum lookup, written from the property (C20), independent of the code:
+   the first field of the first line whose file-name field (second field; a leading '*' - sha256sum's binary marker - removed)
+   equals the asset name exactly */
+#ifndef NATIVE
+static inline opt_sv spec_checksum(bl_sv c, bl_sv a) {
+  size_t pos = 0;
+  while (pos < c.n) {
+    size_t e = pos; while (e < c.n && c.p[e] != '\n') e++;
+    size_t i = pos; while (i < e && bl_isspace((unsigned char)c.p[i])) i++;
+    size_t h0 = i; while (i < e && !bl_isspace((unsigned char)c.p[i])) i++; size_t h1 = i;
+    while (i < e && bl_isspace((unsigned char)c.p[i])) i++;
+    size_t n0 = i; while (i < e && !bl_isspace((unsigned char)c.p[i])) i++; size_t n1 = i;
+    if (n0 < n1 && c.p[n0] == '*') n0++;
+    if (h1 > h0 && n1 - n0 == a.n) { size_t j = 0; while (j < a.n && c.p[n0 + j] == a.p[j]) j++; if (j == a.n) { opt_sv r; r.has = 1; r.v.p = c.p + h0; r.v.n = h1 - h0; return r; } }
+    pos = e + 1;
+  }
+  opt_sv none; none.has = 0; none.v.p = ""; none.v.n = 0; return none;
+}
+#endif
+'''
 RET = '__CPROVER_return_value'
 CMP_SPEC = ('((!current.valid || !latest.valid) ? 0 : (current.major != latest.major ? (current.major < latest.major ? -1 : 1) : '
             '(current.minor != latest.minor ? (current.minor < latest.minor ? -1 : 1) : (current.patch != latest.patch ? (current.patch < latest.patch ? -1 : 1) : 0))))')
@@ -492,11 +550,13 @@ CONTRACTS['maybePrintNotice'] = {
 CONTRACTS['checkForUpdatesIfDue'] = {
     'contract': sv_req('currentVersion') + [
         R('bl_exc == 0 && bl_out_count[1] >= 0 && bl_out_count[1] < 900 && g_saves >= 0 && g_saves < 1000 && g_fetches >= 0 && g_fetches < 1000 && g_loads >= 0 && g_loads < 1000'),
-        A(EXC_VARS + ', ' + STOI_VARS + ', g_cur, g_lat, g_saves, g_fetches, g_loads, __CPROVER_object_whole(bl_out_count)'),
+        A(EXC_VARS + ', ' + STOI_VARS + ', g_cur, g_lat, g_saves, g_fetches, g_loads, g_now, g_saved_lastNotified, __CPROVER_object_whole(bl_out_count)'),
         E('checkForUpdatesIfDue.never_raises', 'bl_exc == 0', ['C20', 'C12']),
         E('checkForUpdatesIfDue.disabled_by_environment_does_nothing',
           '(ENVSET("BLOCH_NO_UPDATE_CHECK") || ENVSET("CI") || ENVSET("BLOCH_OFFLINE")) ==> (' + OUT + ' == __CPROVER_old(' + OUT + ') && bl_out_count[2] == __CPROVER_old(bl_out_count[2]) && g_saves == __CPROVER_old(g_saves) && g_fetches == __CPROVER_old(g_fetches) && g_loads == __CPROVER_old(g_loads))', ['C20']),
         E('checkForUpdatesIfDue.at_most_one_notice', OUT + ' <= __CPROVER_old(' + OUT + ') + 1', ['C20']),
+        # the 72 h throttle holds across invocations only if a printed notice reaches the cache file, stamped with this run's time
+        E('checkForUpdatesIfDue.printed_notice_is_persisted_with_its_time', '(' + OUT + ' == __CPROVER_old(' + OUT + ') + 1) ==> (g_saves >= __CPROVER_old(g_saves) + 1 && g_saved_lastNotified == g_now)', ['C20']),
     ],
 }
 CONTRACTS['performSelfUpdate_gate'] = {
@@ -545,6 +605,19 @@ HARNESSES += [
   __CPROVER_assume(now2 >= now1 && now2 <= TBOUND / 2 && now2 - now1 < 259200000000000L);
   _Bool r2 = upd_maybePrintNotice(lat2, cur2, now2, cache);
   __CPROVER_assert(!(r1 && r2), "LEMMA two notices are never printed within one 72-hour window"); /*L:lemma.notice.at_most_once_per_72h_window*/
+  __CPROVER_assert(0, "VACUITY_CANARY lemma end reachable");'''),
+    # parseChecksum scans with istringstream / getline / find: outside the unbounded route. Bounded stand-in, labelled bounded, never counted as proved.
+    dict(name='parseChecksum_bounded', fn='parseChecksum', lemma=True, bounded_only=True, replace=[], flags=[], props=['C20', 'C12'], timeout=600, bounded_timeout=900, canaries=[],
+         bound='checksums.txt content of at most CSMAX = 8 bytes, asset name of 1..2 bytes, every byte symbolic; loops unwound 10 times with unwinding assertions',
+         bounded_defs=['VMAX=6', 'CSMAX=8'], unwind=10,
+         labels={'parseChecksum.result_is_hash_of_the_line_naming_exactly_this_asset': ['C20']},
+         body='''  char cb[CSMAX + 1], ab[3]; bl_sv c, a; c.p = cb; a.p = ab;
+  __CPROVER_assume(c.n <= CSMAX && a.n >= 1 && a.n <= 2 && bl_exc == 0);
+  __CPROVER_assume(!bl_isspace((unsigned char)ab[0]) && !bl_isspace((unsigned char)ab[1]) && ab[0] != '*');
+  opt_sv r = upd_parseChecksum(c, a);
+  opt_sv s = spec_checksum(c, a);
+  __CPROVER_assert(bl_exc == 0, "LEMMA parseChecksum never raises"); /*L:parseChecksum.result_is_hash_of_the_line_naming_exactly_this_asset*/
+  __CPROVER_assert((r.has != 0) == (s.has != 0) && (!r.has || (r.v.p == s.v.p && r.v.n == s.v.n)), "LEMMA the checksum returned is the first field of the first line whose file-name field equals the asset name exactly"); /*L:parseChecksum.result_is_hash_of_the_line_naming_exactly_this_asset*/
   __CPROVER_assert(0, "VACUITY_CANARY lemma end reachable");'''),
 ]
 for _h in HARNESSES:
